@@ -409,7 +409,10 @@ def aggregate_workload(ctx, runs) -> None:
     try:
         for _ in range(runs):
             n = rng.choice([1, 2, 3, 5, 8])
-            tb = Table(n, streams=("v1",))
+            # (every fourth run: a second stream whose column label differs from the first one's only in a character that
+            #  is not CF-safe -- the roll-up is over results, not over column names)
+            twin = rng.random() < 0.25
+            tb = Table(n, streams=("v1",) if not twin else ("v1", "v.1", "v_1"))
             # disjoint windows that may leave rows uncovered
             cut1, cut2 = sorted((rng.randrange(0, n + 1), rng.randrange(0, n + 1)))
             wins = [(tb.secs[0] - 1, tb.secs[cut1] if cut1 < n else tb.secs[-1] + 1)]
@@ -430,7 +433,12 @@ def aggregate_workload(ctx, runs) -> None:
                     tests.append(("axds", "valid_range_test", {"valid_span": [1000 + wi, 1002]}))
                 if rng.random() < 0.3:
                     tests.append(("argo", "pressure_increasing_test", {}))
-                contexts.append({"window": w, "streams": {"v1": tests}})
+                sd = {"v1": tests}
+                if twin:
+                    sd["v.1"] = [("qartod", "vf_probe_test", {"tag": wi * 10 + 2})]
+                    sd["v_1"] = [("qartod", "vf_probe_test", {"tag": wi * 10 + 3})]
+                    ctx.count("aggregate.runs_with_look_alike_stream_labels")
+                contexts.append({"window": w, "streams": sd})
             res, err = run_frontend("pandas", tb, build_config(contexts), scratch)
             if err is not None:
                 ctx.violation(f"C04:stream-run-raised:{type(err).__name__}", {"kind": "aggregate-run", "table": tb.describe(),
